@@ -7,6 +7,8 @@
  N38 `D[k] = A if C else B` / `x.a = A if C else B` (a statement)  ->  `if C: D[k] = A else: D[k] = B`
  N56 adjacent `if T: A else: B` + `if T: C else: D` (same isinstance test, name not re-bound) -> `if T: A; C else: B; D`
  N39 `len(X) if X else 0` -> `len(X or ())`
+ N60 `x, = S` -> `x = next(iter(S))`
+ N59 `L = [E for T in XS if C]; if not L: raise ..; for y in L: BODY` -> the scan with a found-flag
  N53 `D.get(K, X)` over plain operands -> `D[K] if K in D else X`
  N51 a loop variable re-bound from itself (`k = f(k)`) gets its own name for the new value
  N52 a run of single-use temporaries read in binding order by the next statement is substituted into it
@@ -455,6 +457,17 @@ def _n53(tree):
     return T().visit(tree)
 
 
+def _n60(fn):
+    """N60 `x, = S` / `[x] = S` / `(x,) = S` (unpacking of the only element) -> `x = next(iter(S))`"""
+    for holder, fld, blk in list(_blocks(fn)):
+        for st in blk:
+            if (isinstance(st, ast.Assign) and len(st.targets) == 1 and isinstance(st.targets[0], (ast.Tuple, ast.List))
+                    and len(st.targets[0].elts) == 1 and isinstance(st.targets[0].elts[0], ast.Name) and _is_chain(st.value)):
+                st.targets = [st.targets[0].elts[0]]
+                st.value = ast.copy_location(ast.Call(ast.Name('next', ast.Load()), [ast.Call(ast.Name('iter', ast.Load()), [st.value], [])], []),
+                                             st.value)
+
+
 def _n47(tree):
     """N47 `next(<generator expression>)` without a default is `[<the same comprehension>][0]`"""
     class T(ast.NodeTransformer):
@@ -680,6 +693,80 @@ def _n56(fn):
             i += 1
 
 
+def _n59(fn, counter):
+    """N59 the matches of a scan collected first, tested for emptiness and then looped over
+           L = [E for T in XS if C];  if not L: S;  for y in L: BODY          (S ends in raise / return; L has no other use)
+       are the scan with a found-flag:
+           found = False;  for T in XS: if C: found = True; BODY[y:=E];  if not found: S"""
+    from .normalize import _filter_independent
+    for holder, fld, blk in list(_blocks(fn)):
+        for i, st in enumerate(blk):
+            if not (isinstance(st, ast.Assign) and len(st.targets) == 1 and isinstance(st.targets[0], ast.Name)
+                    and isinstance(st.value, ast.ListComp) and len(st.value.generators) == 1 and st.value.generators[0].ifs
+                    and not st.value.generators[0].is_async):
+                continue
+            L = st.targets[0].id
+            if sum(1 for n in ast.walk(fn) if isinstance(n, ast.Name) and n.id == L and not isinstance(n.ctx, ast.Load)) != 1:
+                continue
+            loads = [n for n in ast.walk(fn) if isinstance(n, ast.Name) and n.id == L and isinstance(n.ctx, ast.Load)]
+            rest = blk[i + 1:]
+            loops = [(k, s_) for k, s_ in enumerate(rest) if isinstance(s_, ast.For) and isinstance(s_.iter, ast.Name) and s_.iter.id == L
+                     and not s_.orelse]
+            if len(loops) != 1:
+                continue
+            k, lo = loops[0]
+
+            def emptiness(s_):
+                """(If statement tests emptiness of L, polarity: True = `not L`)"""
+                if not isinstance(s_, ast.If):
+                    return None
+                t = s_.test
+                if isinstance(t, ast.UnaryOp) and isinstance(t.op, ast.Not) and isinstance(t.operand, ast.Name) and t.operand.id == L:
+                    return True
+                if isinstance(t, ast.Name) and t.id == L:
+                    return False
+                return None
+            tests = [(j, s_) for j, s_ in enumerate(rest) if emptiness(s_) is not None]
+            used = {id(lo.iter)} | {id(n) for _, s_ in tests for n in ast.walk(s_.test)}
+            if any(id(n) not in used for n in loads) or len(tests) != 1:
+                continue
+            j, tst = tests[0]
+            if emptiness(tst) is not True or tst.orelse or not tst.body or not isinstance(tst.body[-1], (ast.Raise, ast.Return)):
+                continue
+            if not ((j == k - 1 and k - 1 == 0) or (j == k + 1 and k == 0)):
+                continue            # the test directly before or after the loop, both right after the binding
+            if any(isinstance(n, ast.Name) and n.id == L for b in lo.body for n in ast.walk(b)):
+                continue
+            comp = st.value
+            g = comp.generators[0]
+            if not _filter_independent(comp, lo.body) or not isinstance(lo.target, ast.Name):
+                continue
+            gen_names = {x.id for x in ast.walk(g.target) if isinstance(x, ast.Name)}
+            inside = {id(x) for x in ast.walk(comp)}
+            if any(isinstance(x, ast.Name) and x.id in gen_names and id(x) not in inside and x.id != lo.target.id for x in ast.walk(fn)):
+                continue
+            counter[0] += 1
+            flag = 'found__z%d' % counter[0]
+            body = list(lo.body)
+            if isinstance(comp.elt, ast.Name):
+                for b in body:
+                    for x in ast.walk(b):
+                        if isinstance(x, ast.Name) and x.id == lo.target.id:
+                            x.id = comp.elt.id
+            else:
+                body = [ast.copy_location(ast.Assign([ast.Name(lo.target.id, ast.Store())], comp.elt, lineno=lo.lineno), lo)] + body
+            body = [ast.copy_location(ast.Assign([ast.Name(flag, ast.Store())], ast.Constant(True), lineno=lo.lineno), lo)] + body
+            cond = g.ifs[0] if len(g.ifs) == 1 else ast.BoolOp(ast.And(), list(g.ifs))
+            for x in ast.walk(g.target):
+                if isinstance(x, ast.Name):
+                    x.ctx = ast.Store()
+            new_loop = ast.copy_location(ast.For(g.target, g.iter, [ast.copy_location(ast.If(cond, body, []), lo)], [], lineno=lo.lineno), lo)
+            tst.test = ast.copy_location(ast.UnaryOp(ast.Not(), ast.Name(flag, ast.Load())), tst.test)
+            init = ast.copy_location(ast.Assign([ast.Name(flag, ast.Store())], ast.Constant(False), lineno=st.lineno), st)
+            blk[i:i + 3] = [init, new_loop, tst]
+            break
+
+
 def pre_normalize(tree: ast.Module) -> ast.Module:
     tree = _n39(tree)
     tree = _n47(tree)
@@ -687,10 +774,12 @@ def pre_normalize(tree: ast.Module) -> ast.Module:
     _n42(tree)
     counter = [0]
     for fn in [n for n in ast.walk(tree) if isinstance(n, (ast.FunctionDef, ast.AsyncFunctionDef))]:
+        _n60(fn)
         _n49(fn)
         _n50(fn)
         _n51(fn, counter)
         _n52(fn)
+        _n59(fn, counter)
         _n48(fn, counter)
         _n46(fn)
         _n41(fn)
